@@ -714,4 +714,140 @@ example : (LC.run LC.init (lcPanicDemo.take 18)).map (fun s => (s.pc 0, (s.m 3).
 example : (LC.run LC.init (lcPanicDemo.take 12)).map (fun s => (s.m 3, s.owner 0, s.pc 0))
     = some (some 0, 0, LC.PC.fp) := by decide
 
+
+/-! ## Round 5: end-to-end statements over the WHOLE configuration space of the public API
+
+`*_reach_of_run`: every prefix-closed run of the executable step function — from the state the constructor builds, for
+every schedule given as a plain list — is reachable; so every theorem above holds after ANY list of (goroutine, input)
+pairs, for every user `Cfg` (all `pre` / `asrt` combinations, not only the three named ones). -/
+
+theorem sf_reach_of_run (l : List (Tid × Nat)) : ∀ (s0 s : SF.St), SF.Reach s0 → SF.run s0 l = some s → SF.Reach s := by
+  induction l with
+  | nil => intro s0 s h0 hr; simp [SF.run] at hr; subst hr; exact h0
+  | cons a l ih =>
+    intro s0 s h0 hr
+    simp only [SF.run] at hr
+    split at hr
+    · rename_i s1 hs1; exact ih s1 s (.step a.1 a.2 h0 hs1) hr
+    · simp at hr
+
+theorem lc_reach_of_run (l : List (Tid × Nat)) : ∀ (s0 s : LC.St), LC.Reach s0 → LC.run s0 l = some s → LC.Reach s := by
+  induction l with
+  | nil => intro s0 s h0 hr; simp [LC.run] at hr; subst hr; exact h0
+  | cons a l ih =>
+    intro s0 s h0 hr
+    simp only [LC.run] at hr
+    split at hr
+    · rename_i s1 hs1; exact ih s1 s (.step a.1 a.2 h0 hs1) hr
+    · simp at hr
+
+theorem rm_reach_of_run (l : List (Tid × Nat)) : ∀ (s0 s : RM.St), RM.Reach s0 → RM.run s0 l = some s → RM.Reach s := by
+  induction l with
+  | nil => intro s0 s h0 hr; simp [RM.run] at hr; subst hr; exact h0
+  | cons a l ih =>
+    intro s0 s h0 hr
+    simp only [RM.run] at hr
+    split at hr
+    · rename_i s1 hs1; exact ih s1 s (.step a.1 a.2 h0 hs1) hr
+    · simp at hr
+
+/-- **SingleFlight end to end**: after ANY schedule on a fresh `NewSingleFlight()`: every returned call got the result
+of the one execution of its flight, that flight was for its key and its leading call overlaps the caller's call, and
+every finished non-panicking execution has exactly one fresh caller. -/
+theorem sf_end_to_end (l : List (Tid × Nat)) (s : SF.St) (hr : SF.run SF.init l = some s) :
+    (∀ r ∈ s.rets, s.fnres r.exec = some r.val ∧ s.ekey r.exec = r.key ∧
+       ∀ lr, s.lret r.exec = some lr → r.inv < lr ∨ (r.fresh = true ∧ lr = r.ret)) ∧
+    (∀ k c, s.calls k = some c → s.key (s.leader c) = k ∧ s.lret c = none) := by
+  have h := sf_reach_of_run l _ _ .init hr
+  refine ⟨fun r hrm => ?_, fun k c hc => ?_⟩
+  · have a := sf_no_stale h r hrm
+    refine ⟨a.1, a.2.1, fun lr hlr => ?_⟩
+    cases hf : r.fresh with
+    | true =>
+      have := (a.2.2.1 hf).2.2
+      rw [hlr] at this
+      exact .inr ⟨rfl, by simpa using this⟩
+    | false => exact .inl ((a.2.2.2 hf).2 lr hlr)
+  · have := sf_cleanup h k c hc
+    exact ⟨this.2.2.1, this.2.2.2⟩
+
+example : (SF.run SF.init sfDemo).isSome = true := by decide
+
+/-- **LockedCalls end to end**: after ANY schedule on a fresh `NewLockedCalls()` every returned call ran its own
+function exactly once and returned that run's result. -/
+theorem lc_end_to_end (l : List (Tid × Nat)) (s : LC.St) (hr : LC.run LC.init l = some s) :
+    ∀ r ∈ s.rets, r.runs = 1 ∧ r.val = r.own := by
+  have h := lc_reach_of_run l _ _ .init hr
+  intro r hrm
+  exact lc_own_fn_once h r hrm
+
+/-- **Every user of the double-checked pattern, end to end** (all `Cfg`: `ResourceManager.GetResource`,
+`collection.Cache.Take`, `cacheNode.doTake` through any of its four entry points, and every other combination of the
+two flags): after ANY schedule on a freshly constructed object, every key was loaded successfully at most once, and any
+two calls of a key that returned an instance returned the same one. -/
+theorem rm_end_to_end (cfg : Cfg) (l : List (Tid × Nat)) (s : RM.St) (hr : RM.run (RM.init cfg) l = some s) :
+    s.cfg = cfg ∧ (∀ k, s.ncreate k ≤ 1) ∧
+    (∀ r ∈ s.rets, ∀ q ∈ s.rets, r.key = q.key → r.val ≠ 0 → q.val ≠ 0 → r.val = q.val) := by
+  have h := rm_reach_of_run l _ _ (.init cfg) hr
+  refine ⟨?_, fun k => rm_create_once h k, fun r hrm q hq hk hv hw => rm_everyone_same h r q hrm hq hk hv hw⟩
+  clear h
+  revert hr
+  generalize hs0 : RM.init cfg = s0
+  have hc : s0.cfg = cfg := by subst hs0; rfl
+  clear hs0
+  induction l generalizing s0 with
+  | nil => intro hr; simp [RM.run] at hr; subst hr; exact hc
+  | cons a l ih =>
+    intro hr
+    simp only [RM.run] at hr
+    split at hr
+    · rename_i s1 hs1; exact ih s1 (by rw [rm_cfg_constant hs1]; exact hc) hr
+    · simp at hr
+
+example : (RM.run (RM.init { pre := true, asrt := true }) takeDemo).map (fun s => (s.cfg, s.ncreate 2)) =
+    some ({ pre := true, asrt := true }, 1) := by decide
+
+/-- **Negative caching is consistent** (`cacheNode.doTake`: a query that reports "no such row" makes `doTake` store the
+not-found placeholder — in the model the instance that execution created; the harness prints such results as the id of
+that execution): whatever set of instances `isNF` stands for the placeholders, two calls of one key that returned
+something never disagree on whether the row exists — nobody is handed a row for a key somebody else was told does not
+exist, as long as the entry is cached. -/
+theorem rm_not_found_consistent {s : RM.St} (h : RM.Reach s) (isNF : Val → Prop) (r q : RRet) (hr : r ∈ s.rets)
+    (hq : q ∈ s.rets) (hk : r.key = q.key) (hrv : r.val ≠ 0) (hqv : q.val ≠ 0) : isNF r.val ↔ isNF q.val := by
+  rw [rm_everyone_same h r q hr hq hk hrv hqv]
+
+/-- … and it is reported after at most one query: the placeholder's execution is the key's one successful load. -/
+theorem rm_not_found_one_query {s : RM.St} (h : RM.Reach s) (r : RRet) (hr : r ∈ s.rets) (hv : r.val ≠ 0) :
+    s.ncreate r.key = 1 := (rm_same_instance h r hr hv).1
+
+/-! ### several instances (`objs` > 1 in the harness): nothing leaks between objects
+
+A family of objects, each built by its constructor with its own maps and its own flight group (tied:
+`tie_newSingleFlight`, `tie_newLockedCalls`, `tie_newResourceManager`, `tie_newCache_fields`), steps one object at a
+time.  Whatever the other objects do, every object of the family is a reachable configuration of the single-object
+system — so every theorem above holds for each of them — and a step of object `i` leaves every other object untouched. -/
+inductive RM.MReach : (Nat → RM.St) → Prop
+  | init (cfgs : Nat → Cfg) : RM.MReach (fun i => RM.init (cfgs i))
+  | step {m : Nat → RM.St} {s' : RM.St} (i : Nat) (t : Tid) (x : Nat) :
+      RM.MReach m → RM.step (m i) t x = some s' → RM.MReach (upd m i s')
+
+theorem rm_instances_independent {m : Nat → RM.St} (h : RM.MReach m) (i : Nat) : RM.Reach (m i) := by
+  induction h with
+  | init cfgs => exact .init (cfgs i)
+  | step j t x _ hs ih =>
+    by_cases hij : i = j
+    · subst hij; rw [upd_same]; exact .step t x ih hs
+    · rw [upd_other _ _ _ _ hij]; exact ih
+
+theorem rm_instances_untouched (m : Nat → RM.St) (i j : Nat) (s' : RM.St) (hij : j ≠ i) : upd m i s' j = m j :=
+  upd_other m i j s' hij
+
+/-- e.g. two managers with the same key: each creates its own instance once; neither sees the other's. -/
+theorem rm_instances_create_once {m : Nat → RM.St} (h : RM.MReach m) (i : Nat) (k : Key) : (m i).ncreate k ≤ 1 :=
+  rm_create_once (rm_instances_independent h i) k
+
+example : ∃ m, RM.MReach m ∧ (m 1).pc 0 = .l0 ∧ (m 0).pc 0 = .idle :=
+  ⟨_, .step (s' := { RM.init .getResource with pc := upd (RM.init .getResource).pc 0 .l0, key := upd (RM.init .getResource).key 0 2 })
+        1 0 2 (.init fun _ => .getResource) (by simp [RM.step, RM.init, Cfg.getResource]), by simp [upd], by simp [upd, RM.init]⟩
+
 end GoZero.C07
